@@ -252,6 +252,9 @@ namespace
             {
                 prs->out[i] = prs->in[i] + token;
                 prs->cnt[i] += 1;
+                // schedule points inside the job (both flavours): callbacks of different workers interleave
+                if (((i + static_cast<std::size_t>(token)) & 7) == 0)
+                    vsim::point(20);
             }
             if (runner < static_cast<std::size_t>(MAX_RUNNERS))
             {
@@ -272,21 +275,17 @@ namespace
         std::vector<Entry> blocks;
         char buf[256];
         if (rs.overflow_runner >= 0)
-            violation("exactly_once", "exactly_once:runner_id", "runner id out of range: " + std::to_string(rs.overflow_runner));
+            ++g_cur.res.counters["p.runner_id_not_below_pool_size"];
         for (int r = 0; r < MAX_RUNNERS; ++r)
         {
             if (rs.nlog[r] == 0)
                 continue;
+            // C11 says nothing about runner ids: recorded, not judged (an id >= pool size would break
+            // the kernels' per-runner data, which is C10's / C08's business)
             if (static_cast<std::size_t>(r) >= psize)
-            {
-                snprintf(buf, sizeof buf, "runner id %d >= pool size %zu", r, psize);
-                violation("exactly_once", "exactly_once:runner_id", buf);
-            }
+                ++g_cur.res.counters["p.runner_id_not_below_pool_size"];
             if (rs.nlog[r] > 1)
-            {
-                snprintf(buf, sizeof buf, "runner %d executed %d blocks in one call", r, rs.nlog[r]);
-                violation("exactly_once", "exactly_once:runner_twice", buf);
-            }
+                ++g_cur.res.counters["p.runner_ran_several_blocks"];
             for (int k = 0; k < rs.nlog[r] && k < MAX_ENTRIES; ++k)
             {
                 const Entry& e = rs.log[r][k];
